@@ -233,7 +233,7 @@ def _store_before(tr, lineno):
 
 
 def run(prop, tier, seed, backends=BACKENDS, only_universe=None):
-    out = Outcome(prop, tier, seed, "model_checking")
+    out = Outcome(prop, tier, seed, "exploration" if prop == "C01" else "model_checking")
     for key, fn in MATCHERS.get(prop, {}).items():
         out.add_matcher(key, fn)
     rnd = random.Random(seed)
